@@ -9,7 +9,7 @@ use nom::branch::alt;
 use nom::bytes::complete::{is_not, tag};
 use nom::character::complete::{char, none_of, one_of};
 use nom::combinator::{
-    cond, into, map, map_opt, not, opt, peek, recognize, value,
+    cond, into, map, map_opt, map_res, not, opt, peek, recognize, value,
 };
 use nom::error::context;
 use nom::multi::{fold_many0, many0, separated_list0, separated_list1};
@@ -107,6 +107,17 @@ pub fn string_or_call(input: Span) -> PResult<Value> {
         {
             fn endp(input: Span) -> PResult<()> {
                 terminated(opt_spacelike, char(')')).parse(input)
+            }
+            if string.value().eq_ignore_ascii_case("url")
+                && let Ok((rest, url)) = terminated(
+                    map_res(is_not(" \t\r\n\"'()\\"), input_to_str),
+                    endp,
+                )
+                .parse(rest)
+            {
+                // An unquoted url is one token, not a list of values.
+                let url = format!("{}({url})", string.value());
+                return Ok((rest, Value::Literal(url.into())));
             }
             let (rest, args) = if string.value() == "calc" {
                 if let Ok((end, ())) = endp(rest) {
